@@ -6,7 +6,7 @@ From FT.lib Require Import Num Arr ArrLemmas Lower NumArr.
 From FT.gen Require Import Common Interp2d Interp3d Vinterp2d Vinterp3d FteikCommon Fteik2d Fteik3d Ray2d Ray3d.
 From FT.proofs Require Import SSR InterpR Interp3R Sweep2dProofs OperatorsR.
 From FT.gen Require Import Vinterp2d Vinterp3d.
-From FT.proofs Require Operators3R InitSym InitEquiv NonNeg3d Sym3d VinterpSwap.
+From FT.proofs Require Operators3R InitSym InitEquiv NonNeg3d Sym3d VinterpSwap InterpMirror.
 Import ListNotations.
 Open Scope R_scope.
 
@@ -543,6 +543,133 @@ Theorem C18_vinterp3d_axis_cycle_zxy :
        u_vinterp3d_v z x y (transpose3_xy (transpose3_yz v)) zq xq yq zsrc xsrc ysrc vzero fval.
 Proof. exact @VinterpSwap.vinterp3d_axis_cycle_zxy. Qed.
 
+(* mirroring an axis (nodes negated and reversed, value grid reversed along it, query coordinate negated) does not change the value of the plain interpolator - EVERY query, including points on node lines, which fall into different cells in the two frames (searchsorted right / far-face branch): equality there comes from continuity across faces *)
+Theorem C18_interp2d_mirror_x :
+  forall (x y v : arr R) (nx ny : Z) (xq yq fval : R),
+       axis x nx ->
+       axis y ny ->
+       shape v = [nx; ny] ->
+       u_interp2d_v (InterpMirror.mirror_axis x) y (InterpMirror.reverse_rows v) (- xq) yq fval =
+       u_interp2d_v x y v xq yq fval.
+Proof. exact @InterpMirror.interp2d_mirror_x. Qed.
+
+(* second axis *)
+Theorem C18_interp2d_mirror_y :
+  forall (x y v : arr R) (nx ny : Z) (xq yq fval : R),
+       axis x nx ->
+       axis y ny ->
+       shape v = [nx; ny] ->
+       u_interp2d_v x (InterpMirror.mirror_axis y) (InterpMirror.reverse_cols v) xq (- yq) fval =
+       u_interp2d_v x y v xq yq fval.
+Proof. exact @InterpMirror.interp2d_mirror_y. Qed.
+
+(* 3D, first axis *)
+Theorem C18_interp3d_mirror_x :
+  forall (x y z v : arr R) (nx ny nz : Z) (xq yq zq fval : R),
+       axis x nx ->
+       axis y ny ->
+       axis z nz ->
+       shape v = [nx; ny; nz] ->
+       u_interp3d_v (InterpMirror.mirror_axis x) y z (InterpMirror.reverse3_x v) (- xq) yq zq fval =
+       u_interp3d_v x y z v xq yq zq fval.
+Proof. exact @InterpMirror.interp3d_mirror_x. Qed.
+
+(* 3D, second axis *)
+Theorem C18_interp3d_mirror_y :
+  forall (x y z v : arr R) (nx ny nz : Z) (xq yq zq fval : R),
+       axis x nx ->
+       axis y ny ->
+       axis z nz ->
+       shape v = [nx; ny; nz] ->
+       u_interp3d_v x (InterpMirror.mirror_axis y) z (InterpMirror.reverse3_y v) xq (- yq) zq fval =
+       u_interp3d_v x y z v xq yq zq fval.
+Proof. exact @InterpMirror.interp3d_mirror_y. Qed.
+
+(* 3D, third axis *)
+Theorem C18_interp3d_mirror_z :
+  forall (x y z v : arr R) (nx ny nz : Z) (xq yq zq fval : R),
+       axis x nx ->
+       axis y ny ->
+       axis z nz ->
+       shape v = [nx; ny; nz] ->
+       u_interp3d_v x y (InterpMirror.mirror_axis z) (InterpMirror.reverse3_z v) xq yq (- zq) fval =
+       u_interp3d_v x y z v xq yq zq fval.
+Proof. exact @InterpMirror.interp3d_mirror_z. Qed.
+
+(* traveltime interpolator, source mirrored too: equality for query and source off the node lines of the mirrored axis (everything else arbitrary) *)
+Theorem C18_vinterp2d_mirror_x_off_node_lines :
+  forall (x y v : arr R) (nx ny : Z) (xq yq xsrc ysrc vzero fval : R),
+       axis x nx ->
+       axis y ny ->
+       shape v = [nx; ny] ->
+       InterpMirror.off_nodes x nx xq ->
+       InterpMirror.off_nodes x nx xsrc ->
+       u_vinterp2d_v (InterpMirror.mirror_axis x) y (InterpMirror.reverse_rows v) (- xq) yq (- xsrc) ysrc vzero fval =
+       u_vinterp2d_v x y v xq yq xsrc ysrc vzero fval.
+Proof. exact @InterpMirror.vinterp2d_mirror_x_off_nodes. Qed.
+
+(* second axis *)
+Theorem C18_vinterp2d_mirror_y_off_node_lines :
+  forall (x y v : arr R) (nx ny : Z) (xq yq xsrc ysrc vzero fval : R),
+       axis x nx ->
+       axis y ny ->
+       shape v = [nx; ny] ->
+       InterpMirror.off_nodes y ny yq ->
+       InterpMirror.off_nodes y ny ysrc ->
+       u_vinterp2d_v x (InterpMirror.mirror_axis y) (InterpMirror.reverse_cols v) xq (- yq) xsrc (- ysrc) vzero fval =
+       u_vinterp2d_v x y v xq yq xsrc ysrc vzero fval.
+Proof. exact @InterpMirror.vinterp2d_mirror_y_off_nodes. Qed.
+
+(* 3D *)
+Theorem C18_vinterp3d_mirror_x_off_node_lines :
+  forall (x y z v : arr R) (nx ny nz : Z) (xq yq zq xsrc ysrc zsrc vzero fval : R),
+       axis x nx ->
+       axis y ny ->
+       axis z nz ->
+       shape v = [nx; ny; nz] ->
+       InterpMirror.off_nodes x nx xq ->
+       InterpMirror.off_nodes x nx xsrc ->
+       u_vinterp3d_v (InterpMirror.mirror_axis x) y z (InterpMirror.reverse3_x v) (- xq) yq zq 
+         (- xsrc) ysrc zsrc vzero fval = u_vinterp3d_v x y z v xq yq zq xsrc ysrc zsrc vzero fval.
+Proof. exact @InterpMirror.vinterp3d_mirror_x_off_nodes. Qed.
+
+(* 3D *)
+Theorem C18_vinterp3d_mirror_y_off_node_lines :
+  forall (x y z v : arr R) (nx ny nz : Z) (xq yq zq xsrc ysrc zsrc vzero fval : R),
+       axis x nx ->
+       axis y ny ->
+       axis z nz ->
+       shape v = [nx; ny; nz] ->
+       InterpMirror.off_nodes y ny yq ->
+       InterpMirror.off_nodes y ny ysrc ->
+       u_vinterp3d_v x (InterpMirror.mirror_axis y) z (InterpMirror.reverse3_y v) xq (- yq) zq xsrc 
+         (- ysrc) zsrc vzero fval = u_vinterp3d_v x y z v xq yq zq xsrc ysrc zsrc vzero fval.
+Proof. exact @InterpMirror.vinterp3d_mirror_y_off_nodes. Qed.
+
+(* 3D *)
+Theorem C18_vinterp3d_mirror_z_off_node_lines :
+  forall (x y z v : arr R) (nx ny nz : Z) (xq yq zq xsrc ysrc zsrc vzero fval : R),
+       axis x nx ->
+       axis y ny ->
+       axis z nz ->
+       shape v = [nx; ny; nz] ->
+       InterpMirror.off_nodes z nz zq ->
+       InterpMirror.off_nodes z nz zsrc ->
+       u_vinterp3d_v x y (InterpMirror.mirror_axis z) (InterpMirror.reverse3_z v) xq yq (- zq) xsrc ysrc 
+         (- zsrc) vzero fval = u_vinterp3d_v x y z v xq yq zq xsrc ysrc zsrc vzero fval.
+Proof. exact @InterpMirror.vinterp3d_mirror_z_off_nodes. Qed.
+
+(* the unrestricted statement is FALSE for arbitrary (directly constructed) grids: the source-cell test compares searchsorted-right indices, so a query ON a node line bounding the source cell is evaluated by the source-cell formula in one frame and by the generic formula in the other (witness: times 1, vzero 0, query (1,0), source (3/2,1/2): 0 vs 1; the Python kernel gives the same pair).  For grids produced by the solver the two formulas agree on that line to rounding (the corners of the source cell are initialised with vzero * distance), which is what the oracle observes *)
+Theorem C18_vinterp2d_mirror_on_node_line_refuted :
+  exists (x y v : arr R) (nx ny : Z) (xq yq xsrc ysrc vzero fval : R),
+         axis x nx /\
+         axis y ny /\
+         shape v = [nx; ny] /\
+         wf v /\
+         u_vinterp2d_v (InterpMirror.mirror_axis x) y (InterpMirror.reverse_rows v) (- xq) yq (- xsrc) ysrc vzero fval <>
+         u_vinterp2d_v x y v xq yq xsrc ysrc vzero fval.
+Proof. exact @InterpMirror.vinterp2d_mirror_x_refuted. Qed.
+
 Print Assumptions C18_t_ana_swap.
 Print Assumptions C18_delta_swap.
 Print Assumptions C18_four_point_swap.
@@ -579,3 +706,14 @@ Print Assumptions C18_vinterp3d_axis_swap_yz.
 Print Assumptions C18_vinterp3d_axis_swap_xz.
 Print Assumptions C18_vinterp3d_axis_cycle_yzx.
 Print Assumptions C18_vinterp3d_axis_cycle_zxy.
+Print Assumptions C18_interp2d_mirror_x.
+Print Assumptions C18_interp2d_mirror_y.
+Print Assumptions C18_interp3d_mirror_x.
+Print Assumptions C18_interp3d_mirror_y.
+Print Assumptions C18_interp3d_mirror_z.
+Print Assumptions C18_vinterp2d_mirror_x_off_node_lines.
+Print Assumptions C18_vinterp2d_mirror_y_off_node_lines.
+Print Assumptions C18_vinterp3d_mirror_x_off_node_lines.
+Print Assumptions C18_vinterp3d_mirror_y_off_node_lines.
+Print Assumptions C18_vinterp3d_mirror_z_off_node_lines.
+Print Assumptions C18_vinterp2d_mirror_on_node_line_refuted.
